@@ -52,7 +52,7 @@ RuleGroup(name) ==
     [] name = "grad"  -> {"Translate", "ArgScale", "LScale", "RVec", "AddConst", "QuadPert", "Bregman",
                           "Comp", "Sum", "Prod", "Quot"}
     [] name = "lin"   -> {"Translate", "ArgScale", "LScale", "RVec", "AddConst", "Sum", "Prod", "Quot"}
-    [] name = "lin3"  -> {"Translate", "ArgScale", "LScale", "Sum"}
+    [] name = "lin3"  -> {"Translate", "ArgScale", "LScale"}
 MC_RuleFilter == RuleGroup(IOEnv.FM_RULES)
 MC_DeepLeaves == Group(IOEnv.FM_DEEP)
 
